@@ -254,7 +254,7 @@ reg("C01", [
 reg("C17", [
     M("C17", "text", "name_text",
       "Name::new + Display + re-create over ALL byte strings of length 0..5 (quick) / 0..7 (thorough) (UTF-8 validity assumed), "
-      "names of 253..256 encoded octets; is_subdomain_of/without over all pairs of names with 0..3 (4) one-byte symbolic labels; "
+      "names of 253..256 encoded octets written with single dots and with repeated / trailing dots (empty labels); is_subdomain_of/without over all pairs of names with 0..3 (4) one-byte symbolic labels; "
       "is_link_local over names whose last label has 0,1,4,5,6 symbolic bytes",
       ["Name::new", "LabelsIter::next", "Label::new", "Label::is_valid_label", "<Name as WireFormat>::len", "<Name as Display>::fmt",
        "<Label as Display>::fmt", "Name::is_subdomain_of", "Name::without", "Name::is_link_local"]),
@@ -323,7 +323,7 @@ reg("C04", [
 ], ["writer kinds are models of the std implementations (Vec, Cursor<Vec>, Cursor<&mut [u8]>, &mut [u8]); other Write impls are outside"])
 reg("C07", [
     M("C07", "pointers", "writers",
-      "5 (quick) / 8 (thorough) packet scenarios + all 7 must-not-compress types: an independent schema-aware walker over the compressed "
+      "5 (quick) / 8 (thorough) packet scenarios + all 7 must-not-compress types (SVCB / HTTPS with and without parameters, priority symbolic): an independent schema-aware walker over the compressed "
       "output of build_bytes_vec_compressed; names from shared symbolic labels (solver chooses which names are equal)",
       _W_FUNCS, params={'part': 'pointers'}),
     M("C07", "origin", "writers",
@@ -382,6 +382,9 @@ reg("C11", [
       "among additional records with 0/4/5 option bytes, OPT first / in the middle of three additional records (order kept): build_bytes_vec(_compressed) succeed and parse back to an equal packet",
       ["Packet::parse", "Packet::build_bytes_vec", "Packet::build_bytes_vec_compressed", "Header::{parse,write_to,get_flags,opt_rr,extract_info_from_opt_rr}",
        "ResourceRecord / RData / typed RDATA parse + write_to + write_compressed_to + len", "Name::{parse,plain_append,compress_append}"]),
+    M("C11", "large", "packet_rt", "received messages larger than 16 KiB, taken as the plain serialisation of the 'far' and 'straddle' packets (names first written "
+      "beyond / across offset 16383, then repeated): re-serialising the parsed packet with compression parses back to the same packet",
+      _PKT_FUNCS, params={'only': ['far', 'straddle']}),
 ], [
     "loop bound 10 per loop head; paths that reach it (legal pointer cycles up to the 255-octet budget) are outside the claim",
     "known finding (not repaired): unnamed RCODE values collapse to RCODE::Reserved and are written back as 1, see known_findings.txt",
